@@ -1,6 +1,8 @@
 package sam
 
 import (
+	"bytes"
+
 	biogosam "github.com/biogo/hts/sam"
 )
 
@@ -106,3 +108,5 @@ func (c *vCapture) Write(p []byte) (int, error) {
 }
 
 var vAllOps = []int{vM, vI, vD, vN, vS, vH, vP, vEq, vX}
+
+func vReader(s string) *bytes.Reader { return bytes.NewReader([]byte(s)) }
